@@ -5,6 +5,9 @@ From Eino Require Import Base.Util Model.ConcatTable Model.Concat Model.ConcatMs
 From Eino Require Import Proofs.Concat Proofs.ConcatRechunk Proofs.ConcatMsg.
 From Coq Require Import Sorting.Permutation Sorting.Sorted.
 
+Section User.
+Context {U : UserFn} {L : UserLaw}.
+
 (* ------------------------------------------------------------------ ceq *)
 
 Lemma ceq_is_nil a b : ceq a b -> is_nil a = is_nil b.
@@ -128,6 +131,12 @@ Proof.
   rewrite IH. destruct Hab; reflexivity.
 Qed.
 
+Lemma F2_payloads vs vs' : Forall2 ceq vs vs' -> payloads vs = payloads vs'.
+Proof.
+  unfold payloads. induction 1 as [|a b l l' Hab _ IH]; cbn; [reflexivity|].
+  rewrite IH. destruct Hab; reflexivity.
+Qed.
+
 Lemma F2_maps vs vs' : Forall2 ceq vs vs' -> Forall2 meq (maps vs) (maps vs').
 Proof.
   unfold maps. induction 1 as [|a b l l' Hab _ IH]; cbn; [constructor|].
@@ -171,8 +180,12 @@ Proof.
     + rewrite registered_num. cbn. constructor.
     + rewrite registered_num. cbn [rrel]. apply F2_last; [constructor|]. repeat constructor; assumption.
   - destruct H as [|a b l l' Hab H]; [|destruct H as [|a2 b2 l l' Hab2 H]]; [| exact Hab |].
-    + cbn [registered]. apply single_nonzero_cong. constructor.
-    + cbn [registered]. apply single_nonzero_cong. repeat constructor; assumption.
+    + cbn [registered user_registered]. destruct (ufn tag) as [ug|]; [|apply single_nonzero_cong; constructor].
+      cbn [payloads flat_map]. destruct (ug []); cbn; auto. constructor.
+    + cbn [registered user_registered].
+      destruct (ufn tag) as [ug|]; [|apply single_nonzero_cong; repeat constructor; assumption].
+      rewrite (F2_payloads (a :: a2 :: l) (b :: b2 :: l')) by (repeat constructor; assumption).
+      destruct (ug _); cbn; auto. constructor.
   - apply rrel_res_map_CMap. apply (Hm mt eq_refl).
 Qed.
 
@@ -252,9 +265,9 @@ Lemma mapM_keys_rel (F G : string -> res cval) K K' :
            (res_mapM (fun k => res_map (fun v => (k, v)) (G k)) K').
 Proof.
   intros HK HR PF PG.
-  assert (NP : forall (H : string -> res cval) L, (forall k, H k <> Panic) ->
-               res_mapM (fun k => res_map (fun v => (k, v)) (H k)) L <> Panic).
-  { intros H L PH. apply res_mapM_no_panic. intros k _. specialize (PH k). destruct (H k); cbn; congruence. }
+  assert (NP : forall (H : string -> res cval) KL, (forall k, H k <> Panic) ->
+               res_mapM (fun k => res_map (fun v => (k, v)) (H k)) KL <> Panic).
+  { intros H KL PH. apply res_mapM_no_panic. intros k _. specialize (PH k). destruct (H k); cbn; congruence. }
   destruct (res_mapM _ K) as [c|e|] eqn:Ec.
   - destruct (mapM_pairs_inv F K c Ec) as [Hfst Hget].
     destruct (res_mapM_all_ok (fun k => res_map (fun v => (k, v)) (G k)) K') as [c' Ec'].
@@ -366,3 +379,5 @@ Proof.
   unfold concat_items_o, concat_items. destruct (dyn_ty v0) as [[| | |mt]|]; try reflexivity.
   rewrite concat_maps_o_first. reflexivity.
 Qed.
+
+End User.
